@@ -647,7 +647,12 @@ def generate_cond(rng, feat=None):
             if depth > 0 and rng.random() < 0.2:
                 used = {g._resolve(s["m"], []) for s in _sites(body)}
                 body.append(block(depth - 1, avoid | used))
-            branches.append({"bid": f"{cid}b{k}", "cond": g.inp(), "body": body})
+            if rng.random() < 0.25:  # a multi-bit expression as branch condition: holds iff non-zero
+                w = rng.choice([2, 3])
+                cnd = f"x:{g.inp(w)}:{rng.randint(2, (1 << w) - 1)}"
+            else:
+                cnd = g.inp()
+            branches.append({"bid": f"{cid}b{k}", "cond": cnd, "body": body})
         if rng.random() < 0.4:
             body = []
             cands = [m for m in pool if m not in avoid]
@@ -673,6 +678,8 @@ def generate_cond(rng, feat=None):
     for md in methods:
         tree[rng.randrange(2)].append(["M", {"id": md["id"], "body": []}])
     kind = rng.choice(["T", "T", "M1", "M2", "MW1", "MW2"])
+    if rng.random() < 0.08:
+        kind = rng.choice(["M0", "MW0"])  # the method with the condition (or its wrapper) has no caller at all
     if kind == "T":
         tree[0].append(["T", {"id": "t0", "ready": g.inp() if rng.random() < 0.7 else None, "body": ebody}])
     else:
@@ -701,7 +708,7 @@ def generate_cond(rng, feat=None):
             inner[1]["en"] = None
             tree[rng.randrange(2)].append(["M", {"id": "w0", "body": [inner]}])
             entry = "w0"
-        for j in range(1 if kind.endswith("1") else 2):
+        for j in range(int(kind[-1])):
             tree[rng.randrange(2)].append(["T", {"id": f"t{j}", "ready": g.inp() if rng.random() < 0.8 else None,
                                                  "body": [guarded(g.call(entry, None))]}])
     for j in range(rng.choice([0, 1, 1, 2])):
